@@ -7,6 +7,7 @@ verus! {
 //@ include prelude/std_specs.rs
 //@ include prelude/panic.rs
 //@ include prelude/radixval.rs
+//@ include prelude/strbytes.rs
 //@ extract src/bigint.rs :: enum Sign attrs=1
 #[derive(/*+*/Structural, /*-*/PartialEq, PartialOrd, Eq, Ord, Copy, Clone, Debug, Hash)]
 pub enum Sign {
@@ -41,6 +42,44 @@ impl BigUint {
 //@ stub u_core/is_zero
 }
 
+//@ extract src/lib.rs :: struct ParseBigIntError attrs=1
+#[derive(Debug, Clone, PartialEq, Eq)]
+pub struct ParseBigIntError {
+    kind: BigIntErrorKind,
+}
+//@ end
+//@ extract src/lib.rs :: enum BigIntErrorKind attrs=1
+#[derive(Debug, Clone, PartialEq, Eq)]
+enum BigIntErrorKind {
+    Empty,
+    InvalidDigit,
+}
+//@ end
+impl ParseBigIntError {
+    pub closed spec fn is_empty_kind(&self) -> bool { self.kind is Empty }
+//@ extract src/lib.rs :: impl ParseBigIntError :: fn empty props=C06
+    fn empty() -> /*+*/(r: /*-*/Self/*+*/)/*-*/
+//+{
+        ensures r.is_empty_kind()
+//+}
+    {
+        ParseBigIntError {
+            kind: BigIntErrorKind::Empty,
+        }
+    }
+//@ end
+//@ extract src/lib.rs :: impl ParseBigIntError :: fn invalid props=C06
+    fn invalid() -> /*+*/(r: /*-*/Self/*+*/)/*-*/
+//+{
+        ensures !r.is_empty_kind()
+//+}
+    {
+        ParseBigIntError {
+            kind: BigIntErrorKind::InvalidDigit,
+        }
+    }
+//@ end
+}
 pub mod convert {
 use super::*;
 pub open spec fn digits_below(s: Seq<u8>, radix: u32) -> bool { forall|i: int| 0 <= i < s.len() ==> (#[trigger] s[i] as u32) < radix }
@@ -219,6 +258,133 @@ pub(super) fn from_radix_be(buf: &[u8], radix: u32) -> /*+*/(r: /*-*/Option<BigU
     };
 
     Some(res)
+}
+//@ end
+
+// ------------------------------------------------------------------ text parsing
+/// value of an ASCII digit character for radices up to 36 (either letter case); 255 for every other byte
+pub open spec fn cval(b: u8) -> u8 {
+    if 48 <= b <= 57 { (b - 48) as u8 } else if 97 <= b <= 122 { (b - 97 + 10) as u8 } else if 65 <= b <= 90 { (b - 65 + 10) as u8 } else { 255u8 }
+}
+/// the digit values of the non-underscore bytes among the first n bytes of t, in order
+pub open spec fn digs(t: Seq<u8>, n: nat) -> Seq<u8>
+    decreases n
+{
+    if n == 0 { Seq::empty() } else if t[n - 1] == 95 { digs(t, (n - 1) as nat) } else { digs(t, (n - 1) as nat).push(cval(t[n - 1])) }
+}
+/// the text after one optional '+' (a second '+' is left in place and is then an invalid digit)
+pub open spec fn unsigned_body(s: Seq<u8>) -> Seq<u8> {
+    if s.len() > 0 && s[0] == 43 && !(s.len() > 1 && s[1] == 43) { s.subrange(1, s.len() as int) } else { s }
+}
+/// well-formed digits: not empty, not starting with '_', every byte '_' or a digit below the radix
+pub open spec fn body_ok(t: Seq<u8>, radix: u32) -> bool {
+    t.len() > 0 && t[0] != 95 && forall|i: int| 0 <= i < t.len() ==> t[i] == 95 || (#[trigger] cval(t[i]) as u32) < radix
+}
+/// the number denoted by the digit characters of t, most significant first
+pub open spec fn text_val(t: Seq<u8>, radix: u32) -> nat {
+    valr(rev8(digs(t, t.len())), radix as nat, digs(t, t.len()).len())
+}
+
+//@ extract src/biguint/convert.rs :: impl Num for BigUint :: fn from_str_radix rules=R0,R11,R48 props=C06,C14 label=biguint_from_str_radix
+/*+*/#[verifier::loop_isolation(false)]
+/*-*/fn from_str_radix(s: &[u8], radix: u32) -> /*+*/(r: /*-*/Result<BigUint, ParseBigIntError>/*+*/)/*-*/
+//+{
+    requires !mp() ==> 2 <= radix <= 36
+    ensures mp() ==> 2 <= radix <= 36,
+        r is Ok <==> body_ok(unsigned_body(s@), radix),
+        r is Ok ==> r->Ok_0.wf() && r->Ok_0.v() == text_val(unsigned_body(s@), radix),
+        r is Err ==> (r->Err_0.is_empty_kind() <==> unsigned_body(s@).len() == 0),
+//+}
+{
+//+{
+    let ghost s0 = s@;
+//+}
+    __assert(2 <= radix && radix <= 36);
+    let mut s = s;
+    if let Some(tail) = __strip_prefix_byte(s, b'+') {
+        if !__starts_with_byte(tail, b'+') {
+            s = tail
+        }
+    }
+//+{
+    let ghost t = s@;
+    proof { assert(t =~= unsigned_body(s0)); }
+//+}
+
+    if s.is_empty() {
+        return Err(ParseBigIntError::empty());
+    }
+
+    if __starts_with_byte(s, b'_') {
+        // Must lead with a real digit!
+        return Err(ParseBigIntError::invalid());
+    }
+
+    // First normalize all characters to plain digit values
+    let mut v = Vec::with_capacity(s.len());
+    { let mut i__ = 0; while i__ < s.len()
+//+{
+        invariant
+            i__ <= s@.len(), s@ == t, 2 <= radix <= 36, t == unsigned_body(s0),
+            v@ == digs(t, i__ as nat),
+            digits_below(v@, radix),
+            forall|j: int| 0 <= j < i__ ==> t[j] == 95 || (#[trigger] cval(t[j]) as u32) < radix,
+            i__ > 0 ==> v@.len() > 0,
+            t.len() > 0 && t[0] != 95,
+        decreases s@.len() - i__
+//+}
+    { let b = s[i__]; i__ += 1;
+        let d = match b {
+            b'0'..=b'9' => b - b'0',
+            b'a'..=b'z' => b - b'a' + 10,
+            b'A'..=b'Z' => b - b'A' + 10,
+            b'_' => continue,
+            _ => u8::MAX,
+        };
+//+{
+        proof { assert(d == cval(b)); assert(b != 95); }
+//+}
+
+        if d < radix as u8 {
+            v.push(d);
+        } else {
+//+{
+            proof { assert(!(t[i__ - 1] == 95 || (cval(t[i__ - 1]) as u32) < radix)); }
+//+}
+            return Err(ParseBigIntError::invalid());
+        }
+    } }
+//+{
+    let ghost dg = v@;
+    proof { assert(body_ok(t, radix)); assert(dg == digs(t, t.len())); }
+//+}
+
+    let res = if radix.is_power_of_two() {
+        // Powers of two can use bitwise masks and shifting instead of multiplication
+        let bits = ilog2(radix);
+//+{
+        proof { lemma_pow2_bits(radix, bits); lemma_radix_is_p2(radix, bits); }
+//+}
+        v.reverse();
+//+{
+        proof {
+            assert(v@ =~= rev8(dg));
+            lemma_valb_is_valr(v@, bits as nat, v@.len());
+            assert forall|i: int| 0 <= i < v@.len() implies (#[trigger] v@[i] as nat) < p2(bits as nat) by { assert(v@[i] == dg[dg.len() - 1 - i]); }
+        }
+//+}
+        if big_digit::BITS % bits == 0 {
+            from_bitwise_digits_le(&v, bits)
+        } else {
+            from_inexact_bitwise_digits_le(&v, bits)
+        }
+    } else {
+//+{
+        proof { lemma_not_pow2_range(radix); lemma_valbe_is_valr(dg, radix as nat); }
+//+}
+        from_radix_digits_be(&v, radix)
+    };
+    Ok(res)
 }
 //@ end
 
